@@ -86,6 +86,28 @@ def well_formed_hash(v):
     return isinstance(v, str) and bool(HEX64.match(''.join(v.split())))
 
 
+INT_FIELDS = ('count', 'max', 'block_height', 'pos', 'height', 'tx_pos', 'value', 'index',
+              'confirmed', 'unconfirmed', 'fee')
+
+
+def ill_typed(result, path=''):
+    '''A protocol integer must be a JSON number, not a boolean (True == 1 in Python, not in
+    JSON).  Returns the path of the first offending field.'''
+    if isinstance(result, dict):
+        for k, v in result.items():
+            if k in INT_FIELDS and (isinstance(v, bool) or not isinstance(v, int)):
+                return f'{path}{k}={v!r}'
+            found = ill_typed(v, f'{path}{k}.')
+            if found:
+                return found
+    elif isinstance(result, list):
+        for n, v in enumerate(result[:50]):
+            found = ill_typed(v, f'{path}{n}.')
+            if found:
+                return found
+    return None
+
+
 def boot(config=None):
     s = system.System(reorg_limit=5, max_send=None, extra_env=dict(CONFIGS[config]))
     s.boot(reorgrun.sim_for(BASE).blocks)
@@ -249,6 +271,9 @@ def run_case(case, res):
                                 bad = ('refused-request-corrupted-cache', dict(why=why))
                 elif 'result' in r:
                     res.count('answered')
+                    ill = ill_typed(r['result'])
+                    if ill:
+                        bad = ('ill-typed-result', dict(field=ill))
                     # a script hash that is not one cannot have a well-formed answer
                     if names[:1] == ('scripthash',):
                         arg = params.get('scripthash', MISSING) if isinstance(params, dict) else \
